@@ -51,8 +51,8 @@ pub fn c09_directed() -> Vec<(&'static str, &'static str)> {
         ("slot-reuse-siblings", "stel r = 0; { stel p = 1; r = r + p }; { stel q = 10; r = r + q }; { stel p = 100; stel q = 1000; r = r + p + q }; r"),
         ("function-sees-globals-not-callers-locals", "stel g = 1; functie binnen() { g } functie buiten() { stel g = 2; binnen() } buiten()"),
         ("function-does-not-see-callers-locals", "functie binnen() { lokaal } functie buiten() { stel lokaal = 2; binnen() } buiten()"),
-        ("parameter-shadows-global", "stel n = 5; functie f(n) { n = n + 1; n } [f(1), n]"),
-        ("local-shadows-global-after-use", "stel n = 5; functie f() { stel a = n; stel n = 7; [a, n] } [f(), n]"),
+        ("parameter-shadows-global", "stel n = 5; functie f(n) { n = n + 1; n }; [f(1), n]"),
+        ("local-shadows-global-after-use", "stel n = 5; functie f() { stel a = n; stel n = 7; [a, n] }; [f(), n]"),
         ("enclosing-local-is-not-visible-global-is", "stel teller = 100; functie buiten(teller) { functie binnen(a) { teller + a + 3 }; binnen(5) }; print(\"start\"); buiten(10)"),
         ("enclosing-local-is-not-visible-undeclared", "functie buiten(b) { functie binnen(a) { a + b }; binnen(5) }; print(\"start\"); buiten(10)"),
         ("enclosing-local-three-levels", "stel x = 1; functie a1(x) { functie a2(y) { functie a3(z) { x + z }; a3(y) }; a2(x + 10) }; a1(50)"),
@@ -64,6 +64,11 @@ pub fn c09_directed() -> Vec<(&'static str, &'static str)> {
         ("undeclared-after-stop", "print(\"eerst\"); stel i = 0; zolang i < 3 { i += 1; als i == 2 { stop; onbekend }; volgende; print(ook_onbekend) }; i"),
         ("undeclared-after-antwoord-in-block", "functie f() { { antwoord 1; stel x = onbekend } }; print(\"eerst\"); f()"),
         ("use-before-declaration", "print(\"eerst\"); x; stel x = 1"),
+        ("named-literal-in-subexpression-ends-with-its-block", "print(\"eerst\"); { print(functie hulp() { 1 }()) }; hulp"),
+        ("named-literal-in-subexpression-does-not-replace-outer", "stel hulp = 5; { stel r = [functie hulp() { 1 }, 2]; print(lengte(r)) }; als ja { print(functie hulp() { 2 }()) }; hulp"),
+        ("named-literal-in-argument-of-loop-body", "stel f = 10; stel i = 0; zolang i < 2 { i += 1; print(type(functie f() { 0 })) }; f + i"),
+        ("value-block-ending-in-antwoord-closes-its-scope", "functie f(n) { stel a = 1; stel i = 0; zolang i < n { i += 1; stel a = a + 10; stel r = als i > 100 { antwoord a } anders { 0 } }; a }; [f(0), f(1), f(3)]"),
+        ("nested-blocks-ending-in-antwoord-close-their-scopes", "functie g(x) { stel t = \"buiten\"; { stel t = \"binnen\"; als x > 5 { { antwoord t } } }; t }; [g(1), g(9)]"),
         ("local-function-shadows-global-function", "functie hulp() { 1 } functie buiten() { functie hulp() { 2 }; hulp() }; stel eerst = hulp(); [buiten(), hulp(), eerst]"),
         ("local-function-shadows-global-variable", "stel teller = 10; functie buiten() { functie teller() { 7 }; teller() }; [buiten(), teller, buiten(), teller + 1]"),
         ("block-function-shadows-global-function", "functie f() { 1 } { functie f() { 2 }; print(f()) }; f()"),
@@ -121,6 +126,8 @@ fn c10_directed_fixed() -> Vec<(&'static str, &'static str)> {
         ("loop-counter-fused", "stel i = 0; stel som = 0; zolang i < 10 { i += 1; som = som + i * 2 - 1 }; [i, som]"),
         ("division-truncation", "stel n = 0 - 7; [n / 2, n % 2, 7 / n, 7 % n, n / -2]"),
         ("overflow-both-ways", "stel n = 1152921504606846975; n + 1"),
+        ("literal-through-builtin-then-modified", "stel s = string(\"ab\"); s[0] = \"x\"; stel t = string(\"ab\"); [s, t, \"ab\", string(\"ab\")]"),
+        ("literal-through-builtin-in-function", "functie f() { stel s = string(\"ab\"); s[0] = \"x\"; s }; [f(), f(), string(\"ab\"), \"ab\"]"),
         ("redeclaration-reads-the-name", "stel x = 1; stel x = x + 1; x"),
         ("redeclaration-reads-the-name-2", "stel x = 1; stel y = 2; stel x = [x, y]; stel y = x; [x, y]"),
         ("inner-declaration-reads-the-outer-name", "stel a = 5; { stel a = a; a }"),
@@ -202,17 +209,26 @@ impl Check for Meta {
     fn run_case(&mut self, ctx: &Ctx, idx: u64, st: &mut Stats) {
         let (fam, prog) = self.base_program(ctx, idx);
         let text = to_text(&prog);
+        if fam == "directed" && prog.is_empty() {
+            // (a directed text that the parser refuses would silently become the empty program)
+            st.inconclusive(format!("directed case #{} of {} does not parse", idx, self.id()));
+            return;
+        }
         let mut cfg = ObsCfg::default();
         cfg.budget = Some(300_000);
         let mut r = Rng::for_case(ctx.seed, 950, idx);
         st.count(&format!("programs:{}", fam));
 
         // reference scoping model (C09) — directed cases and the reference family
-        if self.which == Which::C09 && (fam == "directed" || fam == "scopes-reference") {
+        // (C10's directed cases are judged by the reference as well: a representation effect that shows in a program and
+        //  in all of its variants alike is invisible to the metamorphic comparison)
+        if (self.which == Which::C09 && (fam == "directed" || fam == "scopes-reference")) || (self.which == Which::C10 && fam == "directed") {
             let d = differential(&text, &cfg, 200_000, st);
             if let Some(t) = &d.tree {
                 let info = static_check(t);
-                st.max("max-block-nesting", info.max_block_depth as u64);
+                if self.which == Which::C09 {
+                    st.max("max-block-nesting", info.max_block_depth as u64);
+                }
                 st.add("shadowing-declarations", info.shadowings as u64);
                 st.add("redeclarations-in-same-block", info.redeclarations as u64);
                 st.add("nested-functions", info.nested_functions as u64);
